@@ -144,9 +144,9 @@ Print Assumptions C10_check_trace_sound.
 (** Phase A / Phase B field disjointness, on the field sets regenerated from the
     current source (tools/gosrc2v/phaseb.go): what the overlapped recorder writes is
     disjoint from everything the row workers touch, and what the workers write from
-    everything the recorder touches, except the row-synchronised mbInfo.  The
-    workers do read the probabilities, and the recorder would write them if the
-    refresh were not skipped in overlapped mode. *)
+    everything the recorder touches, except the row-synchronised mbInfo.  (Re-enabling
+    the probability refresh in overlapped mode puts "proba" into the recorder's write set
+    and breaks this statement; no separate statement about named fields is needed.) *)
 From WebpGen Require PhaseB.
 From Webp Require Conc.ConcPhaseB.
 Theorem C10_phaseB_disjoint :
@@ -159,13 +159,6 @@ Theorem C10_phaseB_disjoint :
 Proof. apply Conc.ConcPhaseB.phases_disjoint_spec. vm_compute. reflexivity. Qed.
 Print Assumptions C10_phaseB_disjoint.
 
-Theorem C10_phaseB_refresh_guard_matters :
-  WebpGen.PhaseB.refresh_guard_present = true /\
-  Conc.ConcPhaseB.mem "proba" WebpGen.PhaseB.phaseA_reads = true /\
-  Conc.ConcPhaseB.mem "proba" WebpGen.PhaseB.phaseB_writes = false /\
-  Conc.ConcPhaseB.mem "proba" WebpGen.PhaseB.phaseB_writes_serial_mode = true.
-Proof. vm_compute. repeat split. Qed.
-Print Assumptions C10_phaseB_refresh_guard_matters.
 
 (** L2: waitFor / signal of one row with its atomics, mutex and condition variable;
     any row width, any number of waiters with any lists of [needed] <= mbW, any schedule. *)
@@ -400,14 +393,15 @@ Theorem C10_nolock_deadlock_witness :
 Proof. exact NL.nolock_deadlock_witness. Qed.
 Print Assumptions C10_nolock_deadlock_witness.
 
-(** ... and the code has the pair: the statement lists of waitFor and signal, the worker
-    loop and the call order of encodeRow's macroblock loop (hook lines removed), regenerated
-    from the source, are the texts the L1 / L2 models transcribe. *)
+(** ... and the code has the pair: the sequences of synchronisation operations of waitFor and
+    signal (operations on done / waiters / mu / cond with the blocks around them; identifiers,
+    hook lines and all other statements abstracted away), regenerated from the source, are
+    those the L2 model has one transition for, and encodeRow's macroblock loop waits before it
+    signals. *)
 Theorem C10_rowsync_source_matches_model :
-  WebpGen.RowSyncSrc.waitFor_body = NL.modelled_waitFor_body /\
-  WebpGen.RowSyncSrc.signal_body = NL.modelled_signal_body /\
-  WebpGen.RowSyncSrc.worker_body = NL.modelled_worker_body /\
-  WebpGen.RowSyncSrc.encodeRow_mb_calls = NL.modelled_encodeRow_mb_calls.
+  WebpGen.RowSyncSrc.waitFor_ops = NL.modelled_waitFor_ops /\
+  WebpGen.RowSyncSrc.signal_ops = NL.modelled_signal_ops /\
+  WebpGen.RowSyncSrc.encodeRow_sync_calls = NL.modelled_encodeRow_sync_calls.
 Proof. repeat split; reflexivity. Qed.
 Print Assumptions C10_rowsync_source_matches_model.
 
@@ -434,12 +428,17 @@ Theorem C10_queue_site_independent :
 Proof. exact PtP.queue_site_independent. Qed.
 Print Assumptions C10_queue_site_independent.
 
-(** Tie to the source: every [go] statement of the library is one of the modelled
-    sites (regenerated on every run), and the trace points the checker relies on
-    are the hook's constants. *)
-From WebpGen Require Sites Consts.
-Theorem C10_go_statements_modelled : WebpGen.Sites.go_statements = Pt.modelled_go_statements.
-Proof. reflexivity. Qed.
+(** Tie to the source (regenerated on every run): every [go] statement of the library —
+    whatever its file or function is called — sits in a spawn pattern whose arithmetic is one
+    of the modelled shapes (fork-join partition with an exact-cover theorem, row-pipeline
+    workers, frame work queue, or the goroutine that closes the result channel after the
+    join); the translator refuses on any other.  And the trace points the checker relies
+    on are the hook's constants. *)
+From WebpGen Require Sites Consts PartShapes.
+Theorem C10_go_statements_modelled :
+  forallb (fun e => existsb (String.eqb (snd e)) Pt.proved_shapes) WebpGen.PartShapes.site_shapes = true /\
+  WebpGen.PartShapes.site_shapes <> [].
+Proof. split; [vm_compute; reflexivity | discriminate]. Qed.
 Print Assumptions C10_go_statements_modelled.
 
 Theorem C10_trace_points :
